@@ -53,7 +53,7 @@ CHECKS = {
         "engine": "readsim", "level": "exploration",
         "budget": {"quick": 25, "thorough": 600},
         "rule": RULE_READ,
-        "faults": ["bitflip", "word_smash", "truncate_segment", "segment_drop", "segment_dup", "segment_swap", "segtable_tamper", "arena_fault"],
+        "faults": ["bitflip", "word_smash", "tag_smash", "truncate_segment", "segment_drop", "segment_dup", "segment_swap", "segtable_tamper", "arena_fault"],
     },
     "C02": {
         "claim": "hand-assembled cyclic and aliasing pointer graphs (through struct fields, composite-list elements and pointer-list elements) are read by 1-4 concurrent readers with a schedule point before every atomic operation of the read budget; (a) the true size of everything handed out never exceeds T, (b) per-object charges calibrated in a sequential prelude are at least the true size and the concurrent history is linearizable (porcupine) against the sequential budget, including the final value of the limit, (c) no dereference succeeds deeper than D, (d) deep copy, Canonicalize, Equal and CopyFrom on a cyclic chain consume budget bounded by D rather than T",
